@@ -20,7 +20,7 @@ func init() {
 	// Cosine similarity: symmetric and within [-1,1] — bounded stand-in (the inductive
 	// Cauchy-Schwarz argument and bit-level symmetry are out of reach of the contracts).
 	suites["C19-cosine"] = func() result {
-		r := result{Name: "C19-cosine", Bound: "real embedding.CosineSimilarity: all vector pairs of dimension 1..3 over {-2,-1,0,0.5,1,3} and 20,000 seeded random 100-d pairs; tolerance 1e-12 on the range, exact equality for symmetry"}
+		r := result{Name: "C19-cosine", Bound: "real embedding.CosineSimilarity: all vector pairs of dimension 1..3 over {-2,-1,0,0.5,1,3} 20,000 seeded random 100-d pairs, and 8,000 parallel / identical pairs with components from 1e-45 to 3e38, 600 pairs with NaN / infinite components; the range is exact (no tolerance), exact equality for symmetry"}
 		vals := []float32{-2, -1, 0, 0.5, 1, 3}
 		var bad []string
 		check := func(a, b []float32) {
@@ -31,11 +31,11 @@ func init() {
 			}()
 			r.Cases++
 			x, y := embedding.CosineSimilarity(a, b), embedding.CosineSimilarity(b, a)
-			if x != y && len(bad) < 3 {
-				bad = append(bad, fmt.Sprintf("symmetric falsified by %v %v (%v vs %v)", a, b, x, y))
+			if x != y && !(math.IsNaN(x) && math.IsNaN(y)) && len(bad) < 3 {
+				bad = append(bad, fmt.Sprintf("symmetric falsified by %.160v %.160v (%v vs %v)", fmt.Sprint(a), fmt.Sprint(b), x, y))
 			}
-			if (x < -1-1e-12 || x > 1+1e-12 || math.IsNaN(x)) && len(bad) < 3 {
-				bad = append(bad, fmt.Sprintf("range falsified by %v %v (%v)", a, b, x))
+			if (x < -1 || x > 1 || math.IsNaN(x)) && len(bad) < 3 {
+				bad = append(bad, fmt.Sprintf("range falsified by %.160v %.160v (%v)", fmt.Sprint(a), fmt.Sprint(b), x))
 			}
 		}
 		var vecs [][]float32
@@ -63,6 +63,39 @@ func init() {
 			for k := range a {
 				a[k] = float32(rng.NormFloat64())
 				b[k] = float32(rng.NormFloat64()) * float32(i%7)
+			}
+			check(a, b)
+		}
+		// parallel vectors (cosine exactly at the bound) and components at the ends of the float32
+		// range: accumulating in anything narrower than float64 overshoots 1 or overflows to NaN
+		for i := 0; i < 4000; i++ {
+			a, b := make([]float32, 100), make([]float32, 100)
+			scaleA := []float32{1, 1e19, 3e38, 1e-22, 1e-38, 1e-45, 7}[i%7]
+			scaleB := []float32{1, 2, 1e19, 1e-22, -1, 1e-30, 3e38}[(i/7)%7]
+			for k := range a {
+				x := float32(rng.Float64()*2 - 1) // |x| <= 1: the products below stay finite in float32
+				if i%3 == 0 {
+					x = float32(1+k%3) / 3 // few distinct magnitudes
+				}
+				a[k] = x * scaleA
+				b[k] = x * scaleB
+			}
+			if i%11 == 0 {
+				a, b = a[:1+i%5], b[:1+i%5]
+			}
+			check(a, b)
+			check(a, a)
+		}
+		// non-finite components (a damaged file): still a number in [-1, 1]
+		nf := []float32{float32(math.NaN()), float32(math.Inf(1)), float32(math.Inf(-1))}
+		for i := 0; i < 600; i++ {
+			a, b := make([]float32, 1+i%9), make([]float32, 1+i%9)
+			for k := range a {
+				a[k], b[k] = float32(rng.NormFloat64()), float32(rng.NormFloat64())
+			}
+			a[rng.Intn(len(a))] = nf[i%3]
+			if i%2 == 0 {
+				b[rng.Intn(len(b))] = nf[(i/3)%3]
 			}
 			check(a, b)
 		}
